@@ -217,6 +217,34 @@ class Ctx(object):
             work.extend(cfg.succ.get(x, []))
         return True
 
+    def control_deps(self, body, bb):
+        """switches on which block bb is control-dependent within one iteration of its innermost loop (or the function):
+        one non-rejecting arm always leads to bb, another may avoid it (skip / continue / early success return).
+        Returns [(switch block, cond term, arms that always reach bb, arms that may avoid bb)]"""
+        cfg = self.cfgof(body)
+        hs = cfg.loop_of.get(bb, [])
+        header = hs[-1] if hs else None
+        region = cfg.loops[header] if header is not None else cfg.reach_set
+        out = []
+        for s in cfg.rpo:
+            if s == bb or s not in region:
+                continue
+            t = body.block[s]['term']
+            if t['k'] != 'switch' or bb not in cfg.reach_from(s):
+                continue
+            edges = [(str(v), tg) for v, tg in t['arms']] + [('otherwise', t['otherwise'])]
+            sure, maybe = [], []
+            for v, tg in edges:
+                if body.block[tg]['term']['k'] == 'unreachable' or self.rejecting(body, tg):
+                    continue
+                if tg == bb or self.must_reach(body, [tg], bb, header):
+                    sure.append(v)
+                else:
+                    maybe.append(v)
+            if sure and maybe:
+                out.append((s, self.eng.operand(body, s, TERM_IDX, t['discr']), tuple(sure), tuple(maybe)))
+        return out
+
     def every_iteration(self, body, lp, bb):
         """block bb executes on every non-rejected iteration of loop lp"""
         cfg = self.cfgof(body)
